@@ -45,6 +45,40 @@
 
 #include "tsgAddonsCommon.hpp"
 
+#ifdef TASMANIAN_VERIF_HOOKS
+#ifndef TASMANIAN_VERIF_HOOK_SINK
+#define TASMANIAN_VERIF_HOOK_SINK
+namespace TasGrid{
+/*!
+ * \internal
+ * \brief Verification-only trace/yield points of the threaded addons (compiled only with -DTASMANIAN_VERIF_HOOKS).
+ *
+ * A driver may install a sink that receives (event, thread id or count, x, y) records and may sleep or yield inside it
+ * to widen race windows; without a sink (the default) every hook is a no-op.
+ * \endinternal
+ */
+namespace VerifHooks{
+    using EventSink = void (*)(int event, size_t id, double const *x, size_t nx, double const *y, size_t ny);
+    inline EventSink& eventSink(){ static EventSink sink = nullptr; return sink; }
+    inline void emit(int event, size_t id, double const *x = nullptr, size_t nx = 0, double const *y = nullptr, size_t ny = 0){
+        EventSink sink = eventSink();
+        if (sink != nullptr) sink(event, id, x, nx, y, ny);
+    }
+    enum Event{
+        // constructSurrogate, main thread
+        ev_init_job = 1, ev_init_shutdown = 2, ev_loop_top = 3, ev_cs_enter = 4, ev_collect = 5, ev_load_call = 6, ev_refreshed = 7,
+        ev_handout = 8, ev_shutdown_nocand = 9, ev_shutdown_budget = 10, ev_cs_exit = 11, ev_pre_notify_all = 12, ev_notified_all = 13,
+        ev_loop_exit = 14, ev_joined = 15,
+        // constructSurrogate, worker threads
+        ev_w_done = 20, ev_w_pre_notify = 21, ev_w_notified = 22, ev_w_wake = 23, ev_w_exit = 24,
+        // loadNeededValues, worker threads
+        ev_q_pre_lock = 30, ev_q_checkout = 31, ev_q_exit = 32
+    };
+}
+}
+#endif
+#endif
+
 /*!
  * \ingroup TasmanianAddons
  * \addtogroup TasmanianAddonsLoadNeededVals Static Load Model Values
@@ -128,14 +162,23 @@ void loadNeededValues(std::function<void(double const x[], double y[], size_t th
                 [&, thread_id](void)->void{
                     int sample = 0;
                     do{
+#ifdef TASMANIAN_VERIF_HOOKS
+                        VerifHooks::emit(VerifHooks::ev_q_pre_lock, thread_id);
+#endif
                         { // find the next sample
                             std::lock_guard<std::mutex> lock(checked_out_lock);
                             while ((sample < num_points) && checked_out[sample]) sample++;
                             if (sample < num_points) checked_out[sample] = true;
+#ifdef TASMANIAN_VERIF_HOOKS
+                            VerifHooks::emit(VerifHooks::ev_q_checkout, thread_id, nullptr, (size_t) sample, nullptr, (size_t) num_points);
+#endif
                         }
                         if (sample < num_points) // if found, compute the next sample
                             model(xwrap.getStrip(sample), ywrap.getStrip(sample), thread_id);
                     }while(sample < num_points);
+#ifdef TASMANIAN_VERIF_HOOKS
+                    VerifHooks::emit(VerifHooks::ev_q_exit, thread_id);
+#endif
                 }
             );
         }
